@@ -189,3 +189,12 @@ package table
 //@   requires 0 <= offset && b.restartsOffset <= len(b.data) && len(b.data) <= 1099511627776
 //@   ensures [C13:entry-decoding] forall sh, ul, vl uint64 :: (sh <= 1099511627776 && ul <= 1099511627776 && vl <= 1099511627776 && uvat(b.data, offset, sh) && uvat(b.data, offset + uvlen(sh), ul) && uvat(b.data, offset + uvlen(sh) + uvlen(ul), vl) && offset + uvlen(sh) + uvlen(ul) + uvlen(vl) + int(ul) + int(vl) <= b.restartsOffset) ==> (err == nil && nShared == int(sh) && n == uvlen(sh) + uvlen(ul) + uvlen(vl) + int(ul) + int(vl) && sameslice(key, b.data[offset + uvlen(sh) + uvlen(ul) + uvlen(vl) : offset + uvlen(sh) + uvlen(ul) + uvlen(vl) + int(ul)]) && sameslice(value, b.data[offset + uvlen(sh) + uvlen(ul) + uvlen(vl) + int(ul) : offset + uvlen(sh) + uvlen(ul) + uvlen(vl) + int(ul) + int(vl)]))
 //@   ensures [C13:end-of-entries] offset == b.restartsOffset ==> (err == nil && n == 0 && isnil(key))
+
+// The block trailer the writer emits is what the reader's checksum gate (readRawBlock) accepts: a type byte and the
+// masked CRC-32C of block bytes ++ type byte.
+//@ func (*Writer).writeBlock
+//@   props C13
+//@   safety off
+//@   requires bwf(buf) && buf.off == 0
+//@   at before call io.Writer.Write#1
+//@     assert [C13:block-trailer] n == len(b) - 4 && n >= 1 && le32(b, n) == blockcrc(bytes(b[:n])) && (b[n-1] == blockTypeNoCompression || b[n-1] == blockTypeSnappyCompression)
